@@ -180,6 +180,9 @@ func (c *V2) Do(op Op) (out Outcome) {
 	case OpPut:
 		in := &v2ddb.PutItemInput{TableName: aws.String(op.Table), Item: ItemToV2(op.Item), ConditionExpression: strp(op.Cond),
 			ExpressionAttributeNames: op.Names, ExpressionAttributeValues: ItemToV2(op.Values)}
+		if op.RetCCF {
+			in.ReturnValuesOnConditionCheckFailure = v2types.ReturnValuesOnConditionCheckFailureAllOld
+		}
 		_, err := c.C.PutItem(ctx, in)
 		return fin(err)
 	case OpGet:
@@ -219,6 +222,9 @@ func (c *V2) Do(op Op) (out Outcome) {
 			ExpressionAttributeNames: op.Names, ExpressionAttributeValues: ItemToV2(op.Values)}
 		if op.RetOld {
 			in.ReturnValues = v2types.ReturnValueAllOld
+		}
+		if op.RetCCF {
+			in.ReturnValuesOnConditionCheckFailure = v2types.ReturnValuesOnConditionCheckFailureAllOld
 		}
 		res, err := c.C.DeleteItem(ctx, in)
 		o := fin(err)
